@@ -97,7 +97,45 @@ SYNTH_FORMS = """
   throughput: 1.0
   latency: ~
   port_pressure: [[1, '0']]
+- name: hvya
+  operands:
+  - class: register
+    name: xmm
+  - class: register
+    name: xmm
+  throughput: 12.0
+  latency: 20.0
+  port_pressure: [[12, '0']]
+- name: hvyb
+  operands:
+  - class: register
+    name: xmm
+  - class: register
+    name: xmm
+  throughput: 120.0
+  latency: 130.0
+  port_pressure: [[120, '1'], [1, '012']]
+- name: thra
+  operands:
+  - class: register
+    name: xmm
+  - class: register
+    name: xmm
+  throughput: 0.3333
+  latency: 1.0
+  port_pressure: [[1, '012']]
+- name: thrb
+  operands:
+  - class: register
+    name: xmm
+  - class: register
+    name: xmm
+  throughput: 0.6667
+  latency: 2.0
+  port_pressure: [[2, '012'], [1, '45']]
 """
+# a port column is as wide as its largest cell: next to a >= 10 (>= 100) cycle cell, thirds are shown with three (four) decimals
+WIDECOL = ["hvya %xmm1, %xmm2", "hvyb %xmm3, %xmm4", "thra %xmm5, %xmm6", "thrb %xmm7, %xmm8", "thra %xmm9, %xmm10"]
 ZERO = {
     "x86": ["jne .L77", "jmp .L77", "nop", "je .L77", "jb .L77"],
     "aarch64": ["bne .L77", "b.ne .L77", "nop", "b .L77", "b.lt .L77"],
@@ -240,6 +278,12 @@ def make_case(cls, isa, arch, r, pools):
             lines.insert(r.randrange(len(lines) + 1), r.choice(PARTIAL[arch]))
         if r.random() < 0.4:
             lines.insert(r.randrange(len(lines) + 1), r.choice(UNKNOWN[isa]))
+    elif cls == "widecol":
+        lines = [r.choice(WIDECOL[:2])] + [r.choice(WIDECOL[2:]) for _ in range(r.randrange(1, 4))]
+        if r.random() < 0.5:
+            lines.append(r.choice(WIDECOL[:2]))
+        lines += [r.choice(pool) for _ in range(r.randrange(0, 4))]
+        r.shuffle(lines)
     elif cls == "zero":
         lines = [r.choice(pool) for _ in range(r.randrange(1, 10))]
         for _ in range(r.randrange(1, 4)):
@@ -475,6 +519,8 @@ def judge(case, text, d, deps, R, file_text, from_yaml=False):
                     R.count("cell_negative")
                 if cv[1] != 0.005:
                     R.count("cell_precision_not_2")
+                    if abs(float(v) * 100 - round(float(v) * 100)) > 1e-6:
+                        R.count("thirds_next_to_wide_cell")  # a value that two decimals cannot show, in a column with more
                 if not rp.agrees(cell, v):
                     J.bad("cell/pressure", "line %d port %s: cell %r, dict %r" % (ln, p, cell, v))
         if row["cp"] != "":
@@ -728,7 +774,7 @@ def plan(tier, seed):
         for a in models:
             specs.append({"arch": a, "runs": 17, "mode": "inproc"})
         specs.append({"arch": None, "runs": 10, "mode": "cli"})
-        specs.append({"arch": "csx", "runs": 12, "mode": "synth"})
+        specs.append({"arch": "csx", "runs": 18, "mode": "synth"})
     else:
         for part in range(2):
             specs.append({"arch": "csx", "runs": 100, "mode": "synth", "part": part})
@@ -780,6 +826,8 @@ def floors(tier):
     for c in CLASSES:
         f["class:" + c] = (2 if c in LEN_CLASSES else 3) if q else 60
     f["class:partial"] = 10 if q else 150
+    f["class:widecol"] = 3 if q else 60
+    f["thirds_next_to_wide_cell"] = 3 if q else 60
     f["partial_tp_unknown_lt_known_lines"] = 8 if q else 120
     return f
 
@@ -801,24 +849,13 @@ def run_shard(spec, R):
                 execute(case, R, work, mode="cli")
             return
         if spec["mode"] == "synth":
-            # zen1 plus three partial-data forms, installed as csx.yml in a private data directory searched first
-            import osaca.utils as utils
-
-            os.makedirs(work, exist_ok=True)
-            src = dict(isolate.model_files())["zen1"]
-            with open(src) as fh:
-                text = fh.read().replace("arch_code: ZEN1", "arch_code: CSX")
-            with open(os.path.join(work, "csx.yml"), "w") as fh:
-                fh.write(text.rstrip("\n") + "\n" + SYNTH_FORMS)
-            old_dirs = list(utils.DATA_DIRS)
-            utils.DATA_DIRS.insert(0, work)
-            try:
+            with synth_model(work):
                 for i in range(spec["runs"]):
-                    case = make_case("partial", "x86", "csx", r, pools)
+                    case = make_case("partial" if i % 3 else "widecol", "x86", "csx", r, pools)
                     case["fixed"], case["ignore_unknown"] = bool(i & 1), bool(i & 2)
+                    if case["cls"] == "widecol":
+                        case["fixed"] = (i // 3) % 3 != 2  # uniform shares are where thirds come from
                     execute(case, R, work, mode="inproc", load=(i % 5 == 0))
-            finally:
-                utils.DATA_DIRS[:] = old_dirs
             return
         arch = spec["arch"]
         isa = isolate.isa_of(arch)
@@ -845,12 +882,39 @@ def run_shard(spec, R):
         subprocess.run(["rm", "-rf", work])
 
 
+class synth_model(object):
+    """zen1 plus the synthetic forms, installed as csx.yml in a private data directory that is searched first."""
+
+    def __init__(self, work):
+        self.work = work
+
+    def __enter__(self):
+        import osaca.utils as utils
+
+        os.makedirs(self.work, exist_ok=True)
+        src = dict(isolate.model_files())["zen1"]
+        with open(src) as fh:
+            text = fh.read().replace("arch_code: ZEN1", "arch_code: CSX")
+        with open(os.path.join(self.work, "csx.yml"), "w") as fh:
+            fh.write(text.rstrip("\n") + "\n" + SYNTH_FORMS)
+        self.utils, self.old = utils, list(utils.DATA_DIRS)
+        utils.DATA_DIRS.insert(0, self.work)
+        return self
+
+    def __exit__(self, *a):
+        self.utils.DATA_DIRS[:] = self.old
+
+
 def replay(case, R):
     work = os.path.join(os.environ.get("VERIF_HOME", "/tmp"), "c13-replay-%d" % os.getpid())
     case = dict(case)
     mode = case.pop("mode", "inproc")
     case.pop("traceback", None)
     try:
-        execute(case, R, work, mode=mode, load=True)
+        if case.get("arch") == "csx":
+            with synth_model(work):
+                execute(case, R, work, mode="inproc", load=True)
+        else:
+            execute(case, R, work, mode=mode, load=True)
     finally:
         subprocess.run(["rm", "-rf", work])
